@@ -8,7 +8,7 @@ from vlib.core import *
 from vlib import native
 from vlib.asmx.engine import Engine, State, Region, bv, simp, conc, fresh, Unsupported, BoundExceeded, RET_SENTINEL
 from vlib.asmx.decode import Obj
-from props.asm_hmac import rd, cat, bytes_of, reset_image, raw_secret
+from props.asm_hmac import rd, cat, bytes_of, reset_image, same_bytes, raw_secret
 from props.asm_kern import enc
 
 MGR, JOBS, STK, DATA = 0x1500000, 0x1600000, 0x1700000, 0x1800000
@@ -185,7 +185,7 @@ def run_scenario(ctx, variant, bits, nbits, taglens=None, hoff=0, safe_data=True
             inner += chain[:-1]
             got = [R['tag%d' % i].get(k) for k in range(taglens[i])]
             t1 = time.time()
-            if all(is_true(simplify(g == e)) for g, e in zip(got, exp)):
+            if same_bytes(got, exp):
                 r = unsat
             else:
                 r, m = E.check(f, Or(*[g != e for g, e in zip(got, exp)]))
